@@ -310,6 +310,26 @@ func c01Run(c *engine.Ctx) {
 			}
 		}
 	})
+	// the same for geometries without a layout: a coordinate of length 1, 2 or 5 where the stride
+	// is 0 - rejected with a stride-mismatch error like anywhere else
+	for _, g := range []*ref.G{
+		{Kind: ref.LineString, Layout: geom.NoLayout, C1: []ref.C{{}}},
+		{Kind: ref.LinearRing, Layout: geom.NoLayout, C1: []ref.C{{}, {}}},
+		{Kind: ref.MultiPoint, Layout: geom.NoLayout, C1: []ref.C{{}}},
+		{Kind: ref.Polygon, Layout: geom.NoLayout, C2: [][]ref.C{{}, {{}}}},
+		{Kind: ref.MultiLineString, Layout: geom.NoLayout, C2: [][]ref.C{{{}}}},
+		{Kind: ref.MultiPolygon, Layout: geom.NoLayout, C3: [][][]ref.C{{}, {{{}}}}},
+	} {
+		for pos := 0; pos < numCoords(g); pos++ {
+			for _, bad := range []int{1, 2, 5} {
+				c.Count("layoutless_mismatch_cases", 1)
+				c01Exec(c, c01Case{G: g, Mode: "mismatch", Pos: pos, BadLen: bad})
+			}
+		}
+	}
+	for _, n := range []int{1, 2, 5} {
+		c01Exec(c, c01Case{G: &ref.G{Kind: ref.Point, Layout: geom.NoLayout}, Mode: "mismatch", Pos: 0, BadLen: n})
+	}
 	if c.Get("mismatch_rejected") == 0 || c.Get("roundtrip_ok") == 0 {
 		c.Warn("vacuous: no mismatch rejected or no round trip compared")
 	}
@@ -513,6 +533,17 @@ func c01Exec(c *engine.Ctx, cs c01Case) {
 	}
 	if cs.Mode == "selfalias" {
 		c01SelfAlias(c, cs, fail)
+		return
+	}
+	if cs.Mode == "mismatch" && g.Kind == ref.Point && g.Layout == geom.NoLayout {
+		// a point without a layout given a coordinate of BadLen ordinates (the model cannot hold it)
+		_, err := geom.NewPoint(geom.NoLayout).SetCoords(make(geom.Coord, cs.BadLen))
+		var sm geom.ErrStrideMismatch
+		if !errors.As(err, &sm) || sm.Got != cs.BadLen || sm.Want != 0 {
+			fail("wrong-error", fmt.Sprintf("NewPoint(NoLayout).SetCoords(coordinate of length %d): error %T %v, want ErrStrideMismatch{Got:%d,Want:0}", cs.BadLen, err, err, cs.BadLen))
+			return
+		}
+		c.Count("mismatch_rejected", 1)
 		return
 	}
 	if cs.Mode == "mismatch2" {
